@@ -1,0 +1,19 @@
+//go:build verif
+
+package storage
+
+// This file exists only in builds with the "verif" tag.
+
+// VerifStep, when set, is called immediately before every system call that
+// fileStorage.setMeta and writeFileSynced issue (op = "stat", "read", "open",
+// "write", "sync", "close", "rename", "syncdir") and before every os.Remove of
+// a pending CURRENT.<n> file in GetMeta (op = "remove"), with the path the call
+// is about. A checker can copy the directory there (a crash point) or panic
+// (the call and everything after it does not happen).
+var VerifStep func(op, path string)
+
+func verifStep(op, path string) {
+	if f := VerifStep; f != nil {
+		f(op, path)
+	}
+}
